@@ -104,7 +104,8 @@ class CDSearch(
             for P in self.G.grammar.rules[S]:
                 args = self._non_terminal_for[S][P]
                 if args and args not in self._queue_derivation:
-                    self._queue_derivation[args] = CDQueue(int(self.M), k)
+                    # all costs equal => M = 0: a queue of width 0 divides by zero on its first push
+                    self._queue_derivation[args] = CDQueue(max(1, int(self.M)), k)
                     self._bank_derivation[args] = {}
                     self._cost_lists_derivation[args] = []
                     self._empties_derivation[args] = set()
